@@ -497,10 +497,21 @@ func (ex *Exec) visit(fr *Frame, instr ssa.Instruction) continuation {
 		p := ex.derefPtr(fr.get(in.X), "nil pointer dereference")
 		s, ok := (*p.P).(Struct)
 		if !ok {
-			if po, isP := (*p.P).(Poison); isP {
-				ex.unsupported("field of unsupported value (%s)", po.Why)
+			po, isP := (*p.P).(Poison)
+			if isP && strings.HasPrefix(po.Why, "uninitialised global ") && fr.fn.Name() == "init" {
+				// the package initialiser fills a struct-typed variable field
+				// by field: from here on it is what has been stored so far
+				// over the zero value
+				elem := in.X.Type().Underlying().(*types.Pointer).Elem()
+				*p.P = ex.zero(elem)
+				s, ok = (*p.P).(Struct)
 			}
-			ex.bad("FieldAddr on", *p.P)
+			if !ok {
+				if isP {
+					ex.unsupported("field of unsupported value (%s)", po.Why)
+				}
+				ex.bad("FieldAddr on", *p.P)
+			}
 		}
 		fr.env[in] = Ptr{P: &s[in.Field]}
 	case *ssa.Field:
